@@ -211,6 +211,7 @@ fn vfe_arity(op: &str) -> Option<usize> {
     })
 }
 
+#[allow(unused_macros)]
 macro_rules! vfe_impl {
     ($modname:ident, $square:ident, $blend_max:expr) => {
         |op: &str, a: &[&str]| -> R {
